@@ -22,9 +22,8 @@ RULE = ("seeded histories of 3-14 ticks over a tree w/{a,b,c,..}[/x] + unmatched
         "swap_threshold; MemTotal absent / small / large; values up to 2^60.  non-trivial = at least one write by "
         "the plugin and at least two ticks")
 ASSUMPTIONS = [
-    "pressure_ms >= 1 (pressure_ms = 0 divides by zero in Senpai::tick - not part of this property)",
-    "memory.stat, when present, has active_file and inactive_file; PSI files are in the upstream format "
-    "(the throwing paths of getReclaimableBytes / getPressureTotalSome belong to C10)",
+    "PSI files are in the upstream format with a total= field (the throwing path of getPressureTotalSome "
+    "belongs to C10)",
     "argument values are well-formed decimal numbers (argument parsing is C12)",
     "byte statistics < 2^60 and max_backoff, max_probe <= 2, so that no int64 sum overflows and every "
     "double -> int64 conversion is in range (C18.floor_in_int64 / C18.ceil_in_int64)",
@@ -71,7 +70,7 @@ def gen_args(rng, mode):
     opt(0.8, "limit_min_bytes", [(3, 0), (2, PAGE), (2, 100 * M), (1, 1 * G), (1, 12345), (1 if big else 0, 1 << 58)])
     opt(0.6, "limit_max_bytes", [(2, 10 * G), (2, 0), (2, 64 * M), (1, 1 * G), (1, 4097), (1 if big else 0, 1 << 59)])
     opt(0.9, "interval", [(3, 0), (4, 1), (3, 2), (1, 3), (1, 6)])
-    opt(0.7, "pressure_ms", [(3, 10), (2, 1), (2, 5), (1, 100)])
+    opt(0.7, "pressure_ms", [(3, 10), (2, 1), (2, 5), (1, 100), (0.12, 0)])
     opt(0.6, "pressure_pct", [(3, "0.1"), (2, "0.05"), (1, "0.3"), (1, "1"), (1, "0.03"), (1, "0"), (1, "0.07")])
     opt(0.5, "io_pressure_pct", [(3, "0.1"), (2, "0.05"), (1, "0.3"), (1, "1"), (1, "0.03"), (1, "0")])
     opt(0.6, "max_probe", [(3, "0.01"), (2, "0.05"), (2, "0.5"), (1, "1"), (1, "0"), (1, "0.3"), (1, "2")])
@@ -136,6 +135,7 @@ class Leaf:
         pus = int(self.args.get("pressure_ms", "10")) * 1000
         self.total += pick(rng, [(4, 0), (3, rng.randrange(0, max(1, pus))), (1, pus), (1, pus - 1), (2, pus * rng.choice([2, 7, 19, 40])),
                                  (0.4, -min(self.total, rng.randrange(0, 5000)))])
+        self.total = max(0, self.total)
         tm = dec_hundredths(self.args.get("pressure_pct", "0.1"))
         ti = dec_hundredths(self.args.get("io_pressure_pct", "0.1"))
 
@@ -156,7 +156,7 @@ class Leaf:
         stat = {"active_file": filec // 3, "inactive_file": filec - filec // 3, "active_anon": anon // 2, "inactive_anon": anon - anon // 2,
                 "pgscan": 0, "anon": anon, "file": filec}
         if rng.random() < 0.02:
-            del stat["active_anon"]
+            del stat[rng.choice(["active_anon", "inactive_anon", "active_file", "inactive_file"])]
         e = {"p": self.path, "ino": self.ino, "gen": self.gen, "ctrl": self.ctrl, "cur": cur, "min": self.mmin, "max": self.mmax,
              "stat": stat, "mp": [avg(tm), avg(tm), self.total], "iop": [avg(ti), avg(ti), rng.randrange(0, 1000)],
              "swap_max": self.swap_max, "swap_cur": self.swap_cur, "reclaim": self.reclaim}
@@ -176,6 +176,8 @@ class Leaf:
             if k in e:
                 if k == "reclaim":
                     e[k] = not e[k]
+                elif k in ("cur", "min", "max", "stat", "swap_max", "swap_cur", "ctrl") and rng.random() < 0.3:
+                    e[k] = "empty"
                 else:
                     e[k] = None
         return e
@@ -275,7 +277,7 @@ def gen_one(rng, tier):
 
 
 def gen(rng, tier):
-    n = {"quick": 2600, "thorough": 60000, "search": 12000}[tier]
+    n = {"quick": 2000, "thorough": 20000, "search": 8000}[tier]
     for _ in range(n):
         yield gen_one(rng, tier)
 
@@ -323,7 +325,29 @@ def shrink_candidates(s):
             yield dict(s, args=a)
 
 
+def _sweep_stale_worlds(max_age_s=900):
+    """scratch trees left behind by harness processes that a sanitizer aborted (unfixed tree)"""
+    import os
+    import shutil
+    import time
+    root = os.path.join(os.environ.get("VERIF_SCRATCH", "/var/tmp/oomd-verif"), "world")
+    try:
+        names = os.listdir(root)
+    except OSError:
+        return
+    now = time.time()
+    for n in names:
+        if n.startswith("senpai-"):
+            p = os.path.join(root, n)
+            try:
+                if now - os.stat(p).st_mtime > max_age_s:
+                    shutil.rmtree(p, ignore_errors=True)
+            except OSError:
+                pass
+
+
 def extra_coverage(results):
+    _sweep_stale_worlds()
     margin = sum(int(v.get("margin", 0) or 0) for (_, _, v) in results)
     writes = sum(n_writes(t) for (_, t, _) in results)
     return {"writes_compared": writes, "oracle_rounding_margin_skips": margin}
